@@ -1,7 +1,190 @@
-import Driver.Common
-open Drv
+/-
+  Line-protocol driver for the C12 model (KatdalModel/Model/Sensor.lean).
 
-/-- stub driver for C12: replaced when the property's model lands -/
-def step (_line : String) : String := "bad-op"
+  request:  run <inplace 0|1> <s|c> <P> {<dumps> <period> <keep> <getters> <raw> <props> <virt>}xP <cprops> <ops>
+            clean <getter>                   remove_duplicates_and_invalid_values on one getter
+            interp <knots t:v,..> <xs>       np.interp
+  separators: ' ' fields, '!' list of getters/ops, ';' fields of a getter/op or list of samples,
+              ',' fields of a sample / list of values, ':' value tag, '&' '=' properties.
+  reply:    one token per op joined by '!':
+            G:<id> | A:<vals> | C:<vals> | S:<vals> | X:<val> | U | R:<hs>:<samples> | K:<keys> | E:<Error>
+-/
+import Driver.Common
+import KatdalModel.Model.Sensor
+open Drv Np Index Sensor
+
+def parseRat (s : String) : Option Rat :=
+  match s.splitOn "/" with
+  | [n] => n.toInt?.map fun i => (i : Rat)
+  | [n, d] => do
+    let n ← n.toInt?
+    let d ← d.toNat?
+    if d = 0 then none else pure (mkRat n d)
+  | _ => none
+
+def showRat (q : Rat) : String := if q.den = 1 then toString q.num else s!"{q.num}/{q.den}"
+
+def parseList {α} (sep : String) (f : String → Option α) (s : String) : Option (List α) :=
+  if s = "-" || s = "" then some [] else (s.splitOn sep).mapM f
+
+def parseVal (s : String) : Option Val :=
+  if s = "nan" then some .nan
+  else if s = "N" then some .none
+  else match s.splitOn ":" with
+    | ["f", q] => (parseRat q).map Val.num
+    | ["i", i] => i.toInt?.map Val.int
+    | ["s", v] => some (.str v)
+    | ["b", b] => some (.bool (b = "1"))
+    | _ => none
+
+def showVal : Val → String
+  | .num q => s!"f:{showRat q}"
+  | .int i => s!"i:{i}"
+  | .nan => "nan"
+  | .str s => s!"s:{s}"
+  | .bool b => if b then "b:1" else "b:0"
+  | .none => "N"
+  | .app f a => s!"@{f}@{showVal a}"
+
+def showVals (vs : List Val) : String := ",".intercalate (vs.map showVal)
+
+def parseDType : String → Option DType
+  | "float" => some .float | "int" => some .int | "str" => some .str
+  | "bool" => some .bool | "obj" => some .obj | _ => none
+
+def parseSample (s : String) : Option Sample :=
+  match s.splitOn "," with
+  | [t, v, st] => do
+    let t ← parseRat t
+    let v ← parseVal v
+    pure ⟨t, v, st⟩
+  | _ => none
+
+def showSample (s : Sample) : String := s!"{showRat s.t},{showVal s.v},{s.st}"
+
+/-- `dtype;hs;sample;sample…` -/
+def parseGetter (s : String) : Option Getter :=
+  match s.splitOn ";" with
+  | dt :: hs :: rest => do
+    let dt ← parseDType dt
+    let samples ← (rest.filter (· ≠ "")).mapM parseSample
+    pure { dtype := dt, hasStatus := hs = "1", samples := samples }
+  | _ => none
+
+def parseProps (s : String) : Option Props :=
+  if s = "-" || s = "" then some {} else
+  (s.splitOn "&").foldlM (fun (p : Props) kv =>
+    match kv.splitOn "=" with
+    | ["o", v] => (parseRat v).map fun q => { p with timeOffset := some q }
+    | ["c", v] => some { p with categorical := some (v = "1") }
+    | ["v", v] => (parseVal v).map fun x => { p with initialValue := some x }
+    | ["t", v] => some { p with transform := some v }
+    | _ => none) {}
+
+def parsePropMap (s : String) : Option PropMap :=
+  parseList ";" (fun kv => match kv.splitOn "," with
+    | [k, p] => (parseProps p).map fun p => (k, p)
+    | _ => none) s
+
+def parseRaw (s : String) : Option (List (String × Entry)) :=
+  parseList ";" (fun kv => match kv.splitOn "," with
+    | [k, id] => id.toNat?.map fun i => (k, Entry.getter i)
+    | _ => none) s
+
+def parseVirt (s : String) : Option (List Virt) :=
+  parseList "," (fun v => match v with
+    | "azel" => some Virt.azel | "mjd" => some Virt.mjd | "sum" => some Virt.sum | _ => none) s
+
+def parsePart (inplace : Bool) : List String → Option Cache
+  | [dumps, period, keep, getters, raw, props, virt] => do
+    let dumps ← parseList "," parseRat dumps
+    let period ← parseRat period
+    let keep ← parseIx keep
+    let getters ← parseList "!" parseGetter getters
+    let raw ← parseRaw raw
+    let props ← parsePropMap props
+    let virt ← parseVirt virt
+    pure { raw, getters, dumps, period, keep, props, virt, inplace }
+  | _ => none
+
+def parseOp (s : String) : Option Op :=
+  match s.splitOn ";" with
+  | ["get", name, sel, ext, p] => (parseProps p).map fun p => Op.get name (sel = "1") (ext = "1") p
+  | ["setd", name, kind, vals] => do
+    let vs ← parseList "," parseVal vals
+    pure (Op.setData name (if kind = "c" then .cat vs else .arr vs))
+  | ["setg", name, id] => id.toNat?.map fun i => Op.setGetter name i
+  | ["del", name] => some (.del name)
+  | ["keep", "none"] => some (.setKeep none)
+  | ["keep", ix] => (parseIx ix).map fun k => Op.setKeep (some k)
+  | ["alias", a, o] => some (.alias a o)
+  | ["keys"] => some .keys
+  | _ => none
+
+def showOut : Out → String
+  | .getter id => s!"G:{id}"
+  | .full (.arr vs) => s!"A:{showVals vs}"
+  | .full (.cat vs) => s!"C:{showVals vs}"
+  | .sel vs => s!"S:{showVals vs}"
+  | .scalar v => s!"X:{showVal v}"
+  | .unit => "U"
+  | .rawcat hs l => s!"R:{if hs then 1 else 0}:{";".intercalate (l.map showSample)}"
+
+def showKeys (raw : List (String × Entry)) : String :=
+  ",".intercalate (raw.map fun kv => match kv.2 with
+    | .getter id => s!"{kv.1}=g{id}"
+    | .data _ => s!"{kv.1}=d")
+
+def showRes (r : Except Err Out) : String :=
+  match r with
+  | .ok o => showOut o
+  | .error e => showErr e
+
+def runSingle (s : Cache) (ops : List Op) : List String :=
+  (ops.foldl (fun (acc : Cache × List String) op =>
+    match op with
+    | .keys => (acc.1, s!"K:{showKeys acc.1.raw}" :: acc.2)
+    | _ => let (r, s') := step acc.1 op; (s', showRes r :: acc.2)) (s, [])).2.reverse
+
+def runConcat (cc : Concat) (ops : List Op) : List String :=
+  (ops.foldl (fun (acc : Concat × List String) op =>
+    match op with
+    | .keys => (acc.1, s!"K:{"^".intercalate (acc.1.parts.map fun c => showKeys c.raw)}" :: acc.2)
+    | _ => let (r, s') := Concat.step acc.1 op; (s', showRes r :: acc.2)) (cc, [])).2.reverse
+
+def chunk7 : List String → Nat → Option (List (List String) × List String)
+  | rest, 0 => some ([], rest)
+  | a :: b :: c :: d :: e :: f :: g :: rest, n + 1 =>
+    (chunk7 rest n).map fun (ps, r) => ([a, b, c, d, e, f, g] :: ps, r)
+  | _, _ => none
+
+def step (line : String) : String :=
+  match line.splitOn " " with
+  | "run" :: inplace :: kind :: np :: rest =>
+    match np.toNat? with
+    | none => "bad-op"
+    | some n =>
+      match chunk7 rest n with
+      | some (parts, [cprops, ops]) =>
+        match parts.mapM (parsePart (inplace = "1")), parsePropMap cprops, parseList "!" parseOp ops with
+        | some ps, some cp, some ops =>
+          if kind = "s" then
+            match ps with
+            | [p] => "!".intercalate (runSingle p ops)
+            | _ => "bad-op"
+          else "!".intercalate (runConcat { parts := ps, props := cp } ops)
+        | _, _, _ => "bad-op"
+      | _ => "bad-op"
+  | ["clean", g] =>
+    match parseGetter g with
+    | some g => ";".intercalate ((clean g).map showSample)
+    | none => "bad-op"
+  | ["interp", knots, xs] =>
+    match parseList "," (fun kv => match kv.splitOn ":" with
+        | [a, b] => do let a ← parseRat a; let b ← parseRat b; pure (a, b)
+        | _ => none) knots, parseList "," parseRat xs with
+    | some ks, some xs => ",".intercalate (xs.map fun x => showRat (interp ks x))
+    | _, _ => "bad-op"
+  | _ => "bad-op"
 
 def main : IO Unit := Drv.loop step
